@@ -1140,8 +1140,10 @@ def check_misc(prog, rep, m):
                 bad = [(x, y) for x, y, w_ in pairs if holds(x, y) != w_]
                 okint, whyi = not bad, 'wrong for %s' % bad if bad else 'exact on %d pairs' % len(pairs)
             elif False in kinds or not kinds:
-                pairs = [(5, 5, True), (0, 0, True), (-3, -3, True), (1, 2, False), (2, 1, False), (-3, 3, False), (0, 1, False)]
-                bad = [(x, y) for x, y, w_ in pairs if holds(x, y) != w_]
+                # small alphabets too: 0, 2e-6, 4e-6 are three different values (an absolute tolerance of 1e-5 would merge them)
+                pairs = [(5, 5, True), (0, 0, True), (-3, -3, True), (1, 2, False), (2, 1, False), (-3, 3, False), (0, 1, False),
+                         (0, Fr(2, 10 ** 6), False), (Fr(2, 10 ** 6), 0, False), (Fr(4, 10 ** 6), Fr(2, 10 ** 6), False)]
+                bad = [(str(x), str(y)) for x, y, w_ in pairs if holds(x, y) != w_]
                 okflt, whyf = not bad, 'wrong for %s' % bad if bad else 'reflexive and separating on %d pairs' % len(pairs)
         if okint is None and okflt is None and len(ic.params) >= 2:
             # not a generator of matchers but one matcher for every dtype: it is the integer matcher too
